@@ -42,6 +42,8 @@ def evC15 (d : DSt) (e : Ev) : Except String DSt := do
     let late := match enqs[i]? with | some ["enq", "after-disc"] => true | _ => false
     if res == "ok" && late then throw s!"future {i} of a buffer enqueued after the disconnect reports success"
     else if res == "pending" then throw s!"future {i} still unresolved after the socket was destroyed"
+    else if res == "broken" ∧ ¬ d.finals.any (· == ["destroyed"]) then
+      throw s!"future {i} was abandoned (broken promise) while the socket is still alive - its failure was swallowed"
     else pure { d with finals := ["futres", res] :: d.finals }
   | _ => pure d
 
